@@ -43,6 +43,8 @@ impl<'a, T: 'a + Clone, I: Iterator<Item = &'a T>> VpClonedExt<'a, T> for I {
     #[verifier::external_body]
     fn vp_cloned(self) -> (r: std::vec::IntoIter<T>)
         ensures r.obeys_prophetic_iter_laws(), r.decrease() is Some,
+            // the source iterator is driven to its end (vstd states the same for the argument of `collect`)
+            self.obeys_prophetic_iter_laws() ==> self.will_return_none(),
             r.remaining().len() == self.remaining().len(),
             forall|i: int| #![trigger r.remaining()[i]] #![trigger self.remaining()[i]]
                 0 <= i < r.remaining().len() ==> cloned::<T>(*self.remaining()[i], r.remaining()[i]),
